@@ -68,6 +68,11 @@ Proof.
   destruct H as [H|[H|[H|[]]]]; inversion H; subst; apply Hc; reflexivity.
 Qed.
 
+(* no overlay module starts a task that nobody owns: every ensure_future / create_task is registered with the task
+   manager or plainly awaited / returned where it is made (so cancelling the overlay's tasks reaches it) *)
+Lemma shipped_futures_owned_l : forallb (fun r => snd r) future_sites = true.
+Proof. vm_compute. reflexivity. Qed.
+
 (* every class ipv8_service can load has a row *)
 Lemma shipped_classes_listed_l :
   map (fun r => fst (fst r)) unload_table =
